@@ -74,7 +74,7 @@ RULE = ("DDL scripts: 1-3 CREATE TABLE (2-7 columns over every reachable typeinf
 ASSUMPTIONS = ["names are ASCII (strings.EqualFold / simpleString modelled on bytes)",
                "fewer than 8192 columns per root (maxTagVal stays 16384 in generated cases; the model covers the growth loop)"]
 REQUIRED_TAGS = ["tag-collision", "head-reuse", "addcol", "addcol-positioned", "dropcol", "rename", "modify-kind", "keyless", "multi-pk-reordered",
-                 "index", "unique-index", "prefix-index", "check", "default", "generated", "on-update", "comment", "table-collation", "col-collation",
+                 "index", "unique-index", "prefix-index", "prefix-index-before-plain", "check", "default", "generated", "on-update", "comment", "table-collation", "col-collation",
                  "merge-clean", "branch-ddl", "ty-decimal", "ty-enum", "ty-set", "ty-json", "ty-geometry", "ty-bit", "ty-year", "ty-datetime-fsp",
                  "ty-blob", "ty-text", "ty-unsigned", "ty-float", "autoinc", "fulltext-index", "vector-index", "spatial-index", "index-comment",
                  "system-index", "foreign-key", "fk-unresolved", "fk-actions", "fk-composite", "same-ddl-different-commit-placement-recreate"]
@@ -175,6 +175,8 @@ def gen_create(rng, tname, colnames=None):
     if pk:
         parts.append("primary key (%s)" % ", ".join(bq(c["name"]) for c in pk))
     idxs = []
+    idxdef = {}          # index name -> declared prefix length per column (0 = whole column)
+    used_sets = set()
     ixc = [c for c in cols if c["cls"] in INDEXABLE and not c.get("gen")]
     for j in range(rng.choice([0, 0, 1, 1, 2])):
         if not ixc:
@@ -183,11 +185,25 @@ def gen_create(rng, tname, colnames=None):
         uniq = rng.random() < 0.4
         parts.append("%skey ix%d (%s)" % ("unique " if uniq else "", j, ", ".join(bq(c["name"]) for c in sel)))
         idxs.append("unique" if uniq else "plain")
+        used_sets.add(tuple(c["name"] for c in sel))
+        idxdef["ix%d" % j] = [0] * len(sel)
     pfx = [c for c in cols if c["cls"] in ("text", "blob") or c["ty"] == "varchar(255)"]
-    if pfx and rng.random() < 0.4:
+    pfx_before_plain = False
+    if pfx and rng.random() < 0.45:
         c = rng.choice(pfx)
-        parts.append("key ixp (%s(%d))" % (bq(c["name"]), rng.choice([3, 10])))
+        # indexes are stored in name order: "a_pre" sorts before every plain index, "ixp" after ix0, ix1
+        early = rng.random() < 0.6
+        plen = rng.choice([3, 10])
+        parts.append("key %s (%s(%d))" % ("a_pre" if early else "ixp", bq(c["name"]), plen))
         idxs.append("prefix")
+        idxdef["a_pre" if early else "ixp"] = [plen]
+        free_ix = [c2 for c2 in ixc if (c2["name"],) not in used_sets]
+        if early and free_ix:
+            c2 = rng.choice(free_ix)
+            parts.append("key zz_plain (%s)" % bq(c2["name"]))
+            idxs.append("plain")
+            idxdef["zz_plain"] = [0]
+        pfx_before_plain = early and ("plain" in idxs or "unique" in idxs)
     checks = 0
     ints = [c for c in cols if c["cls"] == "int" and not c.get("gen")]
     if ints and rng.random() < 0.35:
@@ -204,7 +220,7 @@ def gen_create(rng, tname, colnames=None):
     q = "create table %s (%s)%s" % (bq(tname), ", ".join(parts), tail)
     return {"op": "create", "table": tname, "q": q,
             "meta": {"cols": [{k: v for k, v in c.items() if k != "opts"} for c in cols], "pk": [c["name"] for c in pk], "idx": idxs, "checks": checks,
-                     "tcoll": tcoll, "autoinc": autoinc}}
+                     "tcoll": tcoll, "autoinc": autoinc, "pfx_before_plain": pfx_before_plain, "idxdef": idxdef}}
 
 
 def simple(s):
@@ -464,7 +480,17 @@ def fixed_cases():
     # open finding tags:recreate-tags-depend-on-commit-placement: the new column comes first, so the kept column a moves to another seed position
     c5 = {"main": [], "branch": [], "recreate": mk_recreate(
         "t", [("a", "int"), ("x", "varchar(20)")], [("n", "int"), ("a", "int")])}
-    return [c1, c2, c3, c4, c5] + known_witness_cases()
+    # a prefix index that sorts (by name) before a plain index: per-index prefix lengths must survive the round trip separately
+    c6 = {"main": [{"op": "create", "table": "p", "q": "create table p (id int primary key, v1 varchar(255), v2 varchar(255), n int, "
+                    "key a_pre (v1(3)), key b_plain (v2), key c_int (n), key d_pre (v2(10), v1(5)), key e_two (n, v1))", "meta": {
+                        "cols": [{"name": "id", "ty": "int", "cls": "int"}, {"name": "v1", "ty": "varchar(255)", "cls": "str"},
+                                 {"name": "v2", "ty": "varchar(255)", "cls": "str"}, {"name": "n", "ty": "int", "cls": "int"}],
+                        "pk": ["id"], "idx": ["prefix", "plain", "plain", "prefix", "plain"], "checks": 0, "tcoll": None, "autoinc": False,
+                        "pfx_before_plain": True,
+                        "idxdef": {"a_pre": [3], "b_plain": [0], "c_int": [0], "d_pre": [10, 5], "e_two": [0, 0]}}}],
+          "branch": [{"op": "addcol", "table": "p", "col": "x", "q": "alter table p add column x int",
+                      "meta": {"cols": [{"name": "x", "ty": "int", "cls": "int"}], "positioned": False}}]}
+    return [c1, c2, c3, c4, c5, c6] + known_witness_cases()
 
 
 def known_witness_cases():
@@ -624,8 +650,37 @@ def rt_basic(o, r):
     return ok
 
 
+def declared_indexes(case, o):
+    """table -> {index name -> declared prefix lengths} from the last accepted CREATE TABLE of the script (main ++ branch on b1)"""
+    d = {}
+    for st, so in zip(case["main"] + case["branch"], o["steps"]):
+        if so["err"]:
+            continue
+        if st["op"] == "create" and "idxdef" in st.get("meta", {}):
+            d[st["table"].lower()] = st["meta"]["idxdef"]
+        elif st["op"] in ("create", "droptable", "modify"):
+            # (MODIFY COLUMN may change a column to a type that cannot carry a prefix: the declaration no longer binds)
+            d.pop(st["table"].lower(), None)
+    return d
+
+
+def prefix_as_declared(o, r):
+    """the reloaded schema's per-index prefix lengths are the ones the DDL declared (an index that still has its declared number of columns)"""
+    decl = (o.get("_decl") or {}).get(r["table"].lower())
+    if not decl or r.get("env") != "A":
+        return True
+    for x in r["stored"]["idx"]:
+        want = decl.get(x["name"]) or decl.get(x["name"].lower())
+        if want is None or len(want) != len(x["tags"]):
+            continue
+        got = list(x["prefix"])
+        if (got if any(got) else []) != (want if any(want) else []):
+            return False
+    return True
+
+
 def rt_flag(o, r):
-    ok = rt_basic(o, r) and not r["create"].startswith("ERR")
+    ok = rt_basic(o, r) and not r["create"].startswith("ERR") and prefix_as_declared(o, r)
     if r.get("env") == "A":
         ok = ok and o["createb"].get(r["table"]) == r["create"]
     return bool(ok)
@@ -638,6 +693,7 @@ def coq_case(case, out):
     stmts = case["main"] + case["branch"]
     if len(o["steps"]) != len(stmts):
         return BAD
+    o["_decl"] = declared_indexes(case, o)
     nm = len(case["main"])
     ddls = [cq_ddl(st, so) for st, so in zip(stmts, o["steps"])]
     # statements that are no-ops for the tag model (rejected / index / check) are left out together with the state after them,
@@ -681,6 +737,8 @@ def classify(case, out):
     o = out.get("obs")
     if not o or out.get("err") or out.get("panic"):
         return ["harness-error"]
+    if len(o["steps"]) == len(case["main"] + case["branch"]):
+        o["_decl"] = declared_indexes(case, o)
     t = set()
     stmts = case["main"] + case["branch"]
     nm = len(case["main"])
@@ -709,6 +767,8 @@ def classify(case, out):
                 t.add("multi-pk-reordered")
             for x in m.get("idx", []):
                 t.add({"plain": "index", "unique": "unique-index", "prefix": "prefix-index"}[x])
+            if m.get("pfx_before_plain"):
+                t.add("prefix-index-before-plain")
             if m.get("checks"):
                 t.add("check")
             if m.get("tcoll"):
@@ -967,6 +1027,9 @@ def _recreate_reordered(case, out):
 
 def match_known(finding, case, out):
     k = finding.get("key")
+    o_ = out.get("obs") if out else None
+    if o_ and len(o_.get("steps", [])) == len(case["main"] + case["branch"]):
+        o_["_decl"] = declared_indexes(case, o_)
     if k == "tags:recreate-tags-depend-on-commit-placement":
         return _recreate_reordered(case, out)
     if k == "merge:check-on-uppercase-column-spurious-schema-conflict":
